@@ -48,10 +48,18 @@ func init() {
 		e.storeCells(st, p.obj, p.off, []Value{e.ts.Ite(hit, a[2].(*Term), cur)})
 		return hit
 	}
+	// the access is marked atomic for the footprint/lock-set race check
+	mark := func(f func(e *Engine, st *State, a []Value, in ssa.Instruction) Value) func(e *Engine, st *State, a []Value, in ssa.Instruction) Value {
+		return func(e *Engine, st *State, a []Value, in ssa.Instruction) Value {
+			st.atomicOp = true
+			defer func() { st.atomicOp = false }()
+			return f(e, st, a, in)
+		}
+	}
 	for _, t := range []string{"Int32", "Int64", "Uint32", "Uint64", "Uintptr"} {
-		I["sync/atomic.Load"+t] = loadN
-		I["sync/atomic.Store"+t] = storeN
-		I["sync/atomic.Add"+t] = addN
-		I["sync/atomic.CompareAndSwap"+t] = casN
+		I["sync/atomic.Load"+t] = mark(loadN)
+		I["sync/atomic.Store"+t] = mark(storeN)
+		I["sync/atomic.Add"+t] = mark(addN)
+		I["sync/atomic.CompareAndSwap"+t] = mark(casN)
 	}
 }
